@@ -43,9 +43,13 @@ def SEMI : UInt8 := 59
 def EQ : UInt8 := 61
 def LQ : UInt8 := 113
 
+/-- `str::trim` on a header value (`HeaderValue::to_str`: visible ASCII and tab): spaces and tabs at both ends -/
+def isWs (b : UInt8) : Bool := b == 32 || b == 9
+def trimWs (s : Bytes) : Bytes := ((s.dropWhile isWs).reverse.dropWhile isWs).reverse
+
 def qOf (orig : Bytes) (qs e : Nat) : Q :=
   match sliceGet orig qs e with
-  | some s => qClass s
+  | some s => qClass (trimWs s)
   | none => .one
 
 /-- the `for (position, byte)` loop of `list_header` -/
@@ -53,7 +57,7 @@ def lgo (orig : Bytes) : Bytes → Nat → LSt → List (Bytes × Q)
   | [], _, st =>
     let q := qOf orig st.qStart orig.length
     match sliceGet orig st.startByte (if st.endByte = 0 then orig.length else st.endByte) with
-    | some v => st.out ++ [(v, q)]
+    | some v => st.out ++ [(trimWs v, q)]
     | none => st.out
   | b :: rest, pos, st =>
     if b = SP then lgo orig rest (pos + 1) st else
@@ -66,7 +70,7 @@ def lgo (orig : Bytes) : Bytes → Nat → LSt → List (Bytes × Q)
     if b = COMMA then
       let q := qOf orig st.qStart pos
       let out := match sliceGet orig st.startByte (if st.endByte = 0 then pos else st.endByte) with
-        | some v => st.out ++ [(v, q)]
+        | some v => st.out ++ [(trimWs v, q)]
         | none => st.out
       let start := if rest.head? = some SP then pos + 2 else pos + 1
       lgo orig rest (pos + 1) { st with out := out, qStart := 0, endByte := 0, startByte := start, inQuality := false }
